@@ -108,7 +108,8 @@ Definition verdict_with (mon : sdcase -> bool) (id : N) (c : sdcase) : list (lis
   else [vrow id 1 (judge (mon c) (same_as_model c) 0)].
 
 Definition mon03 c := c03_ok (sd_items c) (sd_history c) (sd_terminated c).
-Definition mon04 c := c04_ok (effective_ff c) (sd_items c) (sd_history c) (sd_terminated c).
+Definition mon04 c := c04_ok (effective_ff c) (sd_items c) (sd_history c) (sd_terminated c)
+                      && c04_progress_ok (effective_ff c) (sd_items c) (sd_history c).
 Definition mon05 c := c05_ok (effective_ff c) (sd_items c) (sd_history c).
 Definition mon06 c := c06_ok (effective_k c) (effective_ff c) (sd_items c) (sd_history c).
 Definition mon07 c := c07_ok (sd_items c) (sd_history c).
